@@ -109,7 +109,12 @@ def render_program(p):
             out += glob          # globals that call functions are written after the functions they use, in front of dsp
         ps = ', '.join((('%s:%s' % (q[0], q[1]) if q[1] and len(q) < 3 else q[0]) + (' = %s' % render_expr(q[2], 0) if len(q) > 2 else '')) for q in params)
         ret = ''
-        out.append('fn %s(%s)%s{\n  %s\n}\n' % (name, ps, ret, render_expr(body, 1)))
+        btxt = render_expr(body, 1)
+        if p.get('safe_bodies') and btxt.startswith('('):
+            # a body that starts with `(` right after the parameter list / a preceding item trips parser corner cases of the front end
+            # (outside the properties checked here): bind it first
+            btxt = 'let res_ = %s\n  res_' % btxt
+        out.append('fn %s(%s)%s{\n  %s\n}\n' % (name, ps, ret, btxt))
     return ''.join(out)
 
 
